@@ -8,7 +8,7 @@ def _params(cls):
     if cls == 'CustomSD':
         return {'j_function': (lambda w: 0.3 * w), 'cutoff': 2.0, 'cutoff_type': 'exponential', 'temperature': 0.4}
     if cls == 'PowerLawSD':
-        return {'alpha': 0.15, 'zeta': 1.0, 'cutoff': 2.0, 'cutoff_type': 'exponential', 'temperature': 0.4}
+        return {'alpha': 0.15, 'zeta': 1.5, 'cutoff': 2.0, 'cutoff_type': 'exponential', 'temperature': 0.4}
     return {'correlation_function': (lambda t: (1.0 - 0.5j * np.sign(t)) * np.exp(-abs(t)))}
 
 
